@@ -186,5 +186,4 @@ func VerifC38NodePrivacy() {
 	if ok3 && n3 != nil && len(n3.Slots) > 0 && n3.Slots[0].Value != nil {
 		zzvf.Assert(zzvf.BytesEq(*n3.Slots[0].Value, *pristine.Slots[0].Value), "reader3: value-bytes-unchanged")
 	}
-	zzvf.Reach("c38-end")
 }
